@@ -269,14 +269,22 @@ inline void setCurrent(const std::vector<uint64_t>& ch) {
   if (g.curN) memcpy(g.cur, ch.data(), g.curN * sizeof(uint64_t));
   g.caseSeq = g.caseSeq + 1;
 }
+// async-signal-safe (called from the SIGPROF watchdog and from the sanitizer death callback): open/write only, no stdio, no allocation
+// (an earlier fopen/fprintf version could deadlock on the allocator lock when the signal interrupted malloc: the worker then sat in
+// futex_wait until the driver's shard timeout)
 inline void dumpCurrent(const char* path, const char* why) {
   Global& g = G(); if (!g.law || !path[0]) return;
-  FILE* f = fopen(path, "w"); if (!f) return;
-  fprintf(f, "law %s\nchoices", g.law->name.c_str());
+  int fd = open(path, O_WRONLY | O_CREAT | O_TRUNC, 0644); if (fd < 0) return;
+  auto put = [&](const char* t) { size_t n = strlen(t); while (n) { ssize_t r = write(fd, t, n); if (r <= 0) break; t += r; n -= static_cast<size_t>(r); } };
+  put("law "); put(g.law->name.c_str()); put("\nchoices");
   if (g.enumSrc) g.curN = g.enumSrc->rawPath(g.cur, Global::MAXC);
   size_t n = g.curN; while (n > 0 && g.cur[n - 1] == 0) --n;
-  for (size_t i = 0; i < n; ++i) fprintf(f, " %" PRIx64, g.cur[i]);
-  fprintf(f, "\n# fail: %s\n", why); fclose(f);
+  for (size_t i = 0; i < n; ++i) {
+    char b[20]; int k = 0; uint64_t x = g.cur[i]; char tmp[17]; int t = 0;
+    if (x == 0) tmp[t++] = '0'; while (x) { tmp[t++] = "0123456789abcdef"[x & 15]; x >>= 4; }
+    b[k++] = ' '; while (t) b[k++] = tmp[--t]; b[k] = 0; put(b);
+  }
+  put("\n# fail: "); put(why); put("\n"); close(fd);
 }
 inline void deathCallback() { dumpCurrent(G().crashPath, "process died (signal / sanitizer report) while running this case"); fprintf(stderr, "\nVF-CRASH case dumped to %s\n", G().crashPath); }
 
